@@ -594,6 +594,98 @@ def ob_operator_schmidt_rank(d1, d2, r, dform):
                       weight=d1 * d2 * 2)
 
 
+def rect_family(b, r1, c1, r2, c2, r):
+    """X = sum_{q<r} A_q (x) B_q with A_q of shape r1 x c1 and B_q of shape r2 x c2 (local factors need not be square)"""
+    A = [np.asarray(b.array(f"A{q}", (r1, c1), "c")) for q in range(r)]
+    B = [np.asarray(b.array(f"B{q}", (r2, c2), "c")) for q in range(r)]
+    out = np.empty((r1 * r2, c1 * c2), dtype=object)
+    for i, j, k, l in itertools.product(range(r1), range(r2), range(c1), range(c2)):
+        t = 0
+        for q in range(r):
+            t = t + A[q][i, k] * B[q][j, l]
+        out[i * r2 + j, k * c2 + l] = t
+    return out.view(SymArray)
+
+
+def rect_realigned(X, r1, c1, r2, c2):
+    """M[(i,k),(j,l)] = X[(i,j),(k,l)]: rank of M = operator Schmidt rank of X across (r1 x c1) | (r2 x c2)"""
+    X = np.asarray(X)
+    out = np.empty((r1 * c1, r2 * c2), dtype=object)
+    for i, j, k, l in itertools.product(range(r1), range(r2), range(c1), range(c2)):
+        out[i * c1 + k, j * c2 + l] = X[i * r2 + j, k * c2 + l]
+    return out if has_sym(out) else out.astype(complex)
+
+
+def ob_operator_schmidt_rank_rect(r1, c1, r2, c2, r):
+    """dim given as the 2 x 2 matrix [[row dims], [column dims]] that the operator branch indexes (dim[0, :], dim[1, :])"""
+    cfg = {"local_shapes": [[r1, c1], [r2, c2]], "family": f"sum of {r} product operators", "dim_arg": "[[rows], [cols]]"}
+
+    def build(b):
+        return {"X": rect_family(b, r1, c1, r2, c2, r)}
+
+    def call(i):
+        return schmidt_rank(i["X"], [[r1, r2], [c1, c2]])
+
+    def oracle(i):
+        M = rect_realigned(i["X"], r1, c1, r2, c2)
+        return [k_rank(M), k_rank(transpose(M))]
+
+    def post(res, exp, i):
+        a, c = eq(res, exp[0]), eq(res, exp[1])
+        if isinstance(a, (bool, np.bool_)) and isinstance(c, (bool, np.bool_)):
+            return bool(a) or bool(c)
+        return Or(a, c)
+
+    def neg(exp):
+        return [exp[0] + 1, exp[1] + 1]
+
+    def witness():
+        rng = np.random.default_rng(r1 * 1000 + c1 * 100 + r2 * 10 + c2)
+        out = []
+        for _ in range(2):
+            X = sum(np.kron(rng.integers(-3, 4, (r1, c1)) + 1j * rng.integers(-3, 4, (r1, c1)), rng.integers(-3, 4, (r2, c2)) + 0j) for _ in range(r))
+            out.append({"X": X})
+        return out
+    return Obligation("schmidt_rank.operator_rank_is_the_rank_of_the_realigned_matrix", cfg, build, call, oracle, post=post, neg=neg,
+                      weight=r1 * r2 * c1 * c2, witness=witness)
+
+
+def ob_is_product_operator_rect(r1, c1, r2, c2):
+    """product operators with non-square local factors: the verdict on A (x) B is the threshold test on the singular values of
+    the realigned matrix (rank one by construction, so s_1 is what rounding leaves) - decided under the svd kernel"""
+    cfg = {"local_shapes": [[r1, c1], [r2, c2]], "dim_arg": "[[rows], [cols]]", "input": "matrix"}
+    n = r1 * r2 * c1 * c2
+
+    def build(b):
+        return {"X": b.array("X", (r1 * r2, c1 * c2), "c")}
+
+    def call(i):
+        ipv, dec = is_product(i["X"], [[r1, r2], [c1, c2]])
+        return bool(np.asarray(ipv).reshape(-1)[0])
+
+    def oracle(i):
+        U, S, Vh = k_svd(transpose(rect_realigned(i["X"], r1, c1, r2, c2)))
+        U2, S2, Vh2 = k_svd(rect_realigned(i["X"], r1, c1, r2, c2))
+        return [S[1] <= n * pspacing(S[0]), S2[1] <= n * pspacing(S2[0])]
+
+    def post(res, exp, i):
+        alts = []
+        for e in exp:
+            e = e if isinstance(e, SymBool) else SymBool(bool(e))
+            alts.append(e == SymBool(bool(res)))
+        return Or(*alts)
+
+    def witness():
+        rng = np.random.default_rng(r1 * 1000 + c1 * 100 + r2 * 10 + c2 + 7)
+        out = []
+        for rr in (1, 2):
+            X = sum(np.kron(rng.integers(-3, 4, (r1, c1)) + 1j * rng.integers(-3, 4, (r1, c1)), rng.integers(-3, 4, (r2, c2)) + 0j) for _ in range(rr))
+            out.append({"X": X})
+        return out
+    return Obligation("is_product.operator_verdict_is_the_threshold_test_on_the_realigned_vector_and_factors_rebuild", cfg, build,
+                      call, oracle, post=post, neg_control=False, contracts=("svd",), weight=2 * n, witness=witness)
+
+
 def ob_sk_norm(d1, d2, k, dform, shape):
     n = d1 * d2
     cfg = {"dims": [d1, d2], "k": k, "dim_arg": dform, "input": shape}
@@ -872,8 +964,33 @@ def ob_concurrence(kind):
         for v in a:
             tot = tot + v
         return pmax([0, 2 * pmax(a) - tot])
-    return Obligation("concurrence.is_max_0_of_sorted_roots_of_eigenvalues_of_rho_rho_tilde", cfg, build, call, oracle, tv=False,
-                      max_paths=400, weight=60)
+    def witness():
+        # rank-deficient two-qubit states stored with a REAL dtype (pure states and rank-2 mixtures with real amplitudes): zero
+        # eigenvalues of rho rho~ come out as +-1e-17, whose square roots must not poison the result; closed form for the pure ones
+        rng = np.random.default_rng(31)
+        out = []
+        for _ in range(8):
+            v = rng.normal(size=(4, 1))
+            v = v / np.linalg.norm(v)
+            out.append({"rho": (v @ v.T).astype(float)})
+        for _ in range(4):
+            v, w = rng.normal(size=(4, 1)), rng.normal(size=(4, 1))
+            r2 = v @ v.T + w @ w.T
+            out.append({"rho": (r2 / np.trace(r2)).astype(float)})
+        return out
+
+    def post(res, exp, i):
+        rho = i["rho"]
+        if isinstance(rho, np.ndarray) and rho.dtype != object:
+            # numeric: compare with the closed form 2 s0 s1 for pure states, else with the oracle (tolerance for the square roots of rounding noise)
+            ev = np.linalg.eigvalsh((rho + rho.conj().T) / 2) if np.allclose(rho, rho.conj().T) else np.array([0.0])
+            if abs(ev[-1] - 1) < 1e-9 and np.all(np.abs(ev[:-1]) < 1e-9):      # a pure state
+                sv = np.linalg.svd(np.linalg.eigh((rho + rho.conj().T) / 2)[1][:, -1].reshape(2, 2), compute_uv=False)
+                return abs(float(np.real(res)) - 2 * sv[0] * sv[1]) < 1e-6
+            return abs(complex(res) - complex(exp)) < 1e-6
+        return eq(res, exp)
+    return Obligation("concurrence.is_max_0_of_sorted_roots_of_eigenvalues_of_rho_rho_tilde", cfg, build, call, oracle, post=post, tv=False,
+                      max_paths=400, weight=60, witness=witness if kind == "h" else None)
 
 
 # =====================================================================================================================
@@ -918,8 +1035,26 @@ def sk_instances(T):
     for i_ in range(2):
         for j_ in range(4):
             SW[j_ * 2 + i_, i_ * 4 + j_] = 1
+    def ces_projection(dA, dB):
+        """projection onto the orthogonal complement of span{sum_{i+j=k} |i,j>}: a completely entangled subspace of the maximal
+        dimension (dA-1)(dB-1) (no product vector in its range)"""
+        Pm = np.eye(dA * dB)
+        for kk in range(dA + dB - 1):
+            e = np.zeros(dA * dB)
+            for i_ in range(dA):
+                if 0 <= kk - i_ < dB:
+                    e[i_ * dB + (kk - i_)] = 1
+            Pm = Pm - np.outer(e, e) / e.sum()
+        return Pm
+    out += [("projection onto a completely entangled subspace of maximal dimension 4, dims (3,3)", ces_projection(3, 3), (3, 3), 1, False),
+            ("1.5 * projection onto a completely entangled subspace of maximal dimension 3, dims (2,4)", 1.5 * ces_projection(2, 4), (2, 4), 1, False)]
     out += [("two entangled eigenvectors + 0.05 I, locally rotated, dims (2,4)", X24, (2, 4), 1, False),
             ("two entangled eigenvectors + 0.05 I, locally rotated, dims (4,2)", SW @ X24 @ SW.T, (4, 2), 1, False)]
+    # operators whose optimum over Schmidt rank <= k is attained at a LOWER Schmidt rank (the iteration restarts from the vector found)
+    e4_ = np.eye(4)
+    b2 = (np.kron(e4_[0], e4_[0]) + np.kron(e4_[1], e4_[1])) / np.sqrt(2)
+    out += [("|00><00| + 0.5 |11><11|, dims (3,3): optimum at Schmidt rank 1", P(np.kron(np.eye(3)[0], np.eye(3)[0])) + 0.5 * P(np.kron(np.eye(3)[1], np.eye(3)[1])), (3, 3), 2, False),
+            ("projector on (|00>+|11>)/sqrt2 + 0.3 |23><23|, dims (4,4): optimum at Schmidt rank 2", P(b2) + 0.3 * P(np.kron(e4_[2], e4_[3])), (4, 4), 3, False)]
     if T:
         out += [("antisymmetric projector, dims (3,3)", asym, (3, 3), 2, False),
                 ("generic complex PSD (A A^dagger), dims (3,2)", A @ A.conj().T, (3, 2), 1, False),
@@ -974,6 +1109,23 @@ class SkNormBracketTask(Task):
             frames.append((f"Schmidt bases of the local maximiser #{j} of the harness' truncated power iteration", U, W))
         return frames
 
+    def _independent_upper(self, k):
+        import cvxpy
+        dA, dB = self.dims
+        N = dA * dB
+        H = (self.X + self.X.conj().T) / 2
+        rho = cvxpy.Variable((N, N), hermitian=True)
+        cons = [rho >> 0, cvxpy.real(cvxpy.trace(rho)) == 1]
+        if k == 1:
+            cons.append(cvxpy.bmat([[rho[(r // dB) * dB + (c % dB), (c // dB) * dB + (r % dB)] for c in range(N)] for r in range(N)]) >> 0)
+        else:
+            rhoA = cvxpy.bmat([[sum(rho[a * dB + b, c * dB + b] for b in range(dB)) for c in range(dA)] for a in range(dA)])
+            cons.append(k * cvxpy.kron(rhoA, np.eye(dB)) - rho >> 0)
+        val = cvxpy.Problem(cvxpy.Maximize(cvxpy.real(cvxpy.trace(H @ rho))), cons).solve()
+        # for indefinite X the norm is max |<v|X|v>|: also bound -X
+        val2 = cvxpy.Problem(cvxpy.Maximize(cvxpy.real(cvxpy.trace(-H @ rho))), cons).solve()
+        return float(max(val, val2))
+
     def _run(self, rec, seed):
         import z3
         from fractions import Fraction
@@ -983,7 +1135,17 @@ class SkNormBracketTask(Task):
             return z3.RealVal(str(Fraction(round(float(x) * 2 ** 40), 2 ** 40)))
         dA, dB = self.dims
         k, X = self.k, self.X
-        lo, hi = sk_operator_norm(X.copy(), k, list(self.dims))
+        try:
+            lo, hi = sk_operator_norm(X.copy(), k, list(self.dims))
+        except Exception as e:  # noqa: BLE001 - the routine must return bounds for every Hermitian operator and 1 <= k <= min(dims)
+            try:
+                sk_operator_norm(X.copy(), k, list(self.dims))
+                rec["notes"].append(f"exception did not reproduce: {type(e).__name__}: {e}")
+            except Exception as e2:  # noqa: BLE001
+                rec["status"] = "violation"
+                rec["violation"] = {"source": "the real function raises instead of returning bounds (reproduced)", "inputs": jsonable(self.cfg),
+                                    "exception": f"{type(e2).__name__}: {str(e2)[:300]}"}
+            return
         lo, hi = float(np.real(lo)), float(np.real(hi))
         rec["bounds_returned"] = [lo, hi]
         tol = 1e-4 * max(1.0, abs(hi))      # accuracy of the conic solver behind the SDP bounds (observed 1.3e-6 relative), not of the glue
@@ -994,6 +1156,21 @@ class SkNormBracketTask(Task):
             rec["status"] = "violation"
             rec["violation"] = {"source": "the real return value: lower bound above upper bound", "inputs": jsonable(self.cfg), "actual": [lo, hi]}
             return
+        # independent upper bound on the S(k) norm (conic relaxation solved by the harness, own index maps): rho >= 0, Tr rho = 1 and,
+        # for k = 1, rho^{T_B} >= 0; for k >= 2, k (rho_A (x) I) - rho >= 0.  Every Schmidt-rank-<=k projector satisfies these, so
+        # the optimum bounds the norm from above; a returned LOWER bound above it is wrong whatever the families below find.
+        try:
+            ub_ind = self._independent_upper(k)
+        except Exception as e:  # noqa: BLE001
+            ub_ind = None
+            rec["notes"].append(f"independent relaxation not solved: {type(e).__name__}")
+        if ub_ind is not None:
+            rec["independent_upper_bound"] = ub_ind
+            if lo > ub_ind + 10 * tol:
+                rec["status"] = "violation"
+                rec["violation"] = {"source": "the returned lower bound exceeds an independent upper bound on the S(k) norm (PPT / reduction relaxation solved by the harness)",
+                                    "inputs": jsonable(self.cfg), "actual": {"returned_bounds": [lo, hi], "independent_upper_bound": ub_ind}}
+                return
         cs = [(z3.Real(f"cr{i}"), z3.Real(f"ci{i}")) for i in range(k)]
         nrm = z3.Sum([a * a + b * b for a, b in cs])
         for fname, UA, UB in self._frames():
@@ -1052,7 +1229,11 @@ class SkNormBracketTask(Task):
             rec["notes"].append(f"upper bound holds on every family; the lower bound {lo:.6f} is not certified by a witness from the families")
 
     def replay(self, rp):
-        lo, hi = sk_operator_norm(self.X.copy(), self.k, list(self.dims))
+        try:
+            lo, hi = sk_operator_norm(self.X.copy(), self.k, list(self.dims))
+        except Exception as e:  # noqa: BLE001
+            print({"exception": f"{type(e).__name__}: {e}"})
+            return False
         att = rp["violation"].get("actual", {}).get("value_attained")
         print({"returned_bounds": [float(np.real(lo)), float(np.real(hi))], "value_attained_by_recorded_vector": att})
         return not (att is not None and att > float(np.real(hi)) + 1e-6) and float(np.real(lo)) <= float(np.real(hi)) + 1e-6
@@ -1107,8 +1288,15 @@ def obligations(tier):
                     obs.append(ob_schmidt_rank(d1, d2, r, dform, shape))
     for (d1, d2) in [(2, 2), (2, 3), (3, 2)]:      # unequal local dimensions are where an index slip shows
         for r in ([1, 2] if (T or d1 == d2) else [1]):
-            for dform in (["list", "omitted"] if d1 == d2 else ["list"]):
+            for dform in (["list", "omitted", "int"] if d1 == d2 else ["list", "int"]):
                 obs.append(ob_operator_schmidt_rank(d1, d2, r, dform))
+
+    # local factors that are not square: dim = [[row dims], [column dims]]
+    for (r1, c1, r2, c2) in [(2, 3, 3, 2), (1, 2, 2, 1), (2, 1, 2, 2)] + ([(2, 3, 2, 3), (3, 2, 1, 2)] if T else []):
+        for r in (1, 2):
+            if r <= min(r1 * c1, r2 * c2) - 1:
+                obs.append(ob_operator_schmidt_rank_rect(r1, c1, r2, c2, r))
+        obs.append(ob_is_product_operator_rect(r1, c1, r2, c2))
 
     # S(k) vector norm
     for (d1, d2) in dims:
@@ -1133,7 +1321,7 @@ def obligations(tier):
                 obs.append(ob_is_product(d1, d2, dform, shape))
 
     for (d1, d2) in [(2, 2)] + ([(2, 3), (3, 2)] if T else []):
-        for dform in (["list", "omitted"] if d1 == d2 else ["list"]):
+        for dform in (["list", "omitted", "int"] if d1 == d2 else ["list", "int"]):
             obs.append(ob_is_product_operator(d1, d2, dform))
 
     # coherence, purity, entropy, entanglement of formation, concurrence
